@@ -51,6 +51,8 @@ type Analysis struct {
 	errGlobals      map[*ssa.Global]bool
 	dynCalleeOnce   sync.Once
 	vta             *callgraph.Graph
+	ptrGlobalsOnce  sync.Once
+	ptrGlobals      map[*ssa.Global]bool
 }
 
 func pathKind(p *Path) string {
@@ -95,6 +97,7 @@ func (a *Analysis) engineFor(root *ssa.Function) *Engine {
 	e := NewEngine(a.P)
 	e.IsCodecMethod = func(f *ssa.Function) bool { return f != root && a.U.IsCodecMethod(f) }
 	e.NonNilGlobals = a.nonNilErrGlobals()
+	e.NonNilPtrGlobals = a.nonNilPtrGlobals()
 	e.ObjSize = func(ev *Event) (int64, bool) {
 		if ev.Callee == nil || ev.ObjType == nil {
 			return 0, false // a dynamic part: its type, and so its size, is not fixed
@@ -242,7 +245,7 @@ func (a *Analysis) isRegistryMap(m *Val) bool {
 		return false
 	}
 	g, ok := r.Aux.(*ssa.Global)
-	if !ok || g.Pkg != a.U.Codec {
+	if !ok || !a.inCodecTree(g.Pkg) {
 		return false
 	}
 	_, isTable := a.U.TableByVar[g]
@@ -260,7 +263,7 @@ func (a *Analysis) computeRegistryAssumption() {
 	p := a.P
 	mut := map[*ssa.Function]bool{}
 	for fn := range p.AllFuncs {
-		if fn.Pkg != a.U.Codec || fn.Blocks == nil || p.IsTestFile(fn.Pos()) {
+		if !a.inCodecTree(fn.Pkg) || fn.Blocks == nil || p.IsTestFile(fn.Pos()) {
 			continue
 		}
 		for _, b := range fn.Blocks {
@@ -295,7 +298,7 @@ func (a *Analysis) computeRegistryAssumption() {
 			if !p.InModule(fn) || fn.Blocks == nil || p.IsTestFile(fn.Pos()) || isInitFunc(fn) || mut[fn] {
 				continue
 			}
-			if fn.Pkg != a.U.Codec {
+			if !a.inCodecTree(fn.Pkg) {
 				continue
 			}
 			for _, b := range fn.Blocks {
@@ -1058,4 +1061,13 @@ func splitPatchedZeroBlock(p *Path) *Path {
 		return splitPatchedZeroBlock(&np)
 	}
 	return p
+}
+
+// inCodecTree: the codec package or a package below it (codec/internal/checksum: the registry moved behind aliases and
+// forwarding functions is still the registry).
+func (a *Analysis) inCodecTree(pk *ssa.Package) bool {
+	if pk == nil || pk.Pkg == nil || a.U.Codec == nil {
+		return false
+	}
+	return pk == a.U.Codec || strings.HasPrefix(pk.Pkg.Path(), a.U.Codec.Pkg.Path()+"/")
 }
